@@ -169,7 +169,7 @@ func analyse(sc Scenario, out *outcome, drv *lib.Driver) *caseResult {
 	var revRuns [][]entry // per store: the reverts that preceded it
 	var curRun []entry
 	var gotN, gotG []entry
-	for _, e := range out.log {
+	for li, e := range out.log {
 		switch e.Kind {
 		case eEpoch:
 			epoch = e.Epoch
@@ -202,7 +202,15 @@ func analyse(sc Scenario, out *outcome, drv *lib.Driver) *caseResult {
 			cr.hits["commit:reverted"]++
 			cur := out.chains[epoch]
 			if int(e.Num) < len(cur) && cur[e.Num].Block.Hash.Equal(&e.Hash) && !wrongNumAnswered(out.log, id, e.Num, id.of(&e.Hash)) {
-				viol("reverted-a-block-the-source-still-has", fmt.Sprintf("block %d was reverted while the source's chain (epoch %d) holds it", e.Num, epoch))
+				if staleSuccessor(out.log[:li], e) {
+					cr.hits["revert:on-successor-fetched-before-reorg"]++
+					viol("reverted-live-block-on-successor-fetched-before-the-reorg", fmt.Sprintf(
+						"block %d, which the source holds (epoch %d), was reverted: block %d of the source's PREVIOUS chain, fetched before the reorg, "+
+							"arrived after block %d of the new chain had been stored; storeTask answers ErrParentDoesNotMatchHead with revertTask(number-2), which reverts the head without asking",
+						e.Num, epoch, e.Num+1, e.Num))
+				} else {
+					viol("reverted-a-block-the-source-still-has", fmt.Sprintf("block %d was reverted while the source's chain (epoch %d) holds it", e.Num, epoch))
+				}
 			}
 			if len(chain) == 0 || chain[len(chain)-1].num != e.Num {
 				viol("revert-not-of-head", fmt.Sprintf("revert of %d", e.Num))
@@ -461,6 +469,28 @@ func analyse(sc Scenario, out *outcome, drv *lib.Driver) *caseResult {
 	return cr
 }
 
+// staleSuccessor: the reverted block x was first served in some epoch E; a valid block numbered
+// x.num+1 whose parent is not x was served in an epoch before E (it belongs to a chain the source
+// had before x existed).
+func staleSuccessor(before []entry, x entry) bool {
+	first := -1
+	for _, e := range before {
+		if e.Kind == eServed && e.Valid && e.Num == x.Num && e.Hash.Equal(&x.Hash) {
+			first = e.Epoch
+			break
+		}
+	}
+	if first < 0 {
+		return false
+	}
+	for _, e := range before {
+		if e.Kind == eServed && e.Valid && e.Num == x.Num+1 && !e.Parent.Equal(&x.Hash) && e.Epoch < first {
+			return true
+		}
+	}
+	return false
+}
+
 // wrongNumAnswered: before block (num, hash id) was reverted, the source answered a request for
 // height num with a block of another number.
 func wrongNumAnswered(log []entry, id *ids, num uint64, hid int) bool {
@@ -511,7 +541,7 @@ func raceScenario(seed uint64, dstNew bool) Scenario {
 	return Scenario{Kind: "race", Seed: seed, SrcNew: seed%2 == 0, DstNew: dstNew, Procs: 4, Prestore: 3, StartEpoch: 0,
 		Epochs:   []EpochSpec{{Add: 10}, {Depth: 6, Add: 6}},
 		Triggers: []Trigger{{AfterServed: &five}},
-		Faults: Faults{Rules: []Rule{{Height: 4, Epoch: 0, Action: "fail"}, {Height: 5, Epoch: 0, Action: "hold", UntilStores: 2}}}}
+		Faults:   Faults{Rules: []Rule{{Height: 4, Epoch: 0, Action: "fail"}, {Height: 5, Epoch: 0, Action: "hold", UntilStores: 2}}}}
 }
 
 func dynamicScenario(r *lib.RNG, i int) Scenario {
@@ -606,10 +636,8 @@ func main() {
 		for i := range scs {
 			scs[i].Procs = procs[i%len(procs)]
 		}
-		if os.Getenv("C06_RACE") != "" {
-			for i := 0; i < 6; i++ {
-				scs = append(scs, raceScenario(f.Seed*77+uint64(i), i%2 == 0))
-			}
+		for i := 0; i < f.Scale(4, 40); i++ {
+			scs = append(scs, raceScenario(f.Seed*77+uint64(i), i%2 == 0))
 		}
 	}
 	// group by GOMAXPROCS (a process-wide setting)
@@ -646,7 +674,7 @@ func main() {
 					drv = nil
 				} else {
 					defer drv.Close()
-					// developer aid for self-tests against a repaired tree: C06_MODEL_CFG="1 1"
+					// developer aid for self-tests against a repaired tree: C06_MODEL_CFG="1 1 1"
 					if c := os.Getenv("C06_MODEL_CFG"); c != "" {
 						if a, err := drv.Ask("cfg " + c); err != nil || a != "ok" {
 							res.Note("cfg: %v %v", a, err)
